@@ -22,7 +22,7 @@ REQUIRED_MONITORS = ["C10.charnock:implicit-equation", "C10.charnock:drag==(kapp
                      "C10.janssen:NaN-or-positive", "C10.janssen:stress-balance<=1e-4"]
 REQUIRED_COUNTERS = {"C10.janssen_cases_judged": 8, "C10.charnock_scalar_inputs": 3}
 TIMEOUT = {"quick": 1800, "thorough": 5400}
-N = {"quick": (5, 8), "thorough": (12, 40)}
+N = {"quick": (8, 12), "thorough": (14, 60)}
 G, KAPPA, NU, RHO = 9.81, 0.4, 1.48e-5, 1.225
 
 
@@ -183,8 +183,21 @@ def judge_janssen(ctx, c):
         except Exception as e:
             ctx.check("C10.janssen:stress-balance<=1e-4", False, witi, {"exception": repr(e)}, key="C10:janssen:balance")
             continue
+        key = None
+        if abs(r) > 1e-4 * sc:
+            # mechanism classifier: did the solver stop at a stationary point (local extremum) of the balance function?
+            key = "C10:janssen:balance:not-a-root"
+            try:
+                fl, fr = F(float(z0[i]) * np.exp(-0.1))[0], F(float(z0[i]) * np.exp(0.1))[0]
+                fl3, fr3 = F(float(z0[i]) * np.exp(-0.3))[0], F(float(z0[i]) * np.exp(0.3))[0]
+                extremum = (r >= fl and r >= fr) or (r <= fl and r <= fr) or \
+                           ((fl - fl3) * (fr3 - fr) < 0 and abs(fr - fl) < 0.05 * abs(r))
+                if extremum:
+                    key = "C10:janssen:balance:converged-at-stationary-point"
+            except Exception:
+                pass
         ctx.check("C10.janssen:stress-balance<=1e-4", abs(r) <= 1e-4 * sc, witi,
-                  {"z0": float(z0[i]), "residual_rel": abs(r) / sc}, key="C10:janssen:balance")
+                  {"z0": float(z0[i]), "residual_rel": abs(r) / sc}, key=key)
         ctx.ratio("C10.janssen:stress-balance<=1e-4", abs(r) / sc, 1e-4)
 
 
